@@ -2125,6 +2125,9 @@ func (pid *PID) registerRequestState(state *requestState) error {
 		return gerrors.ErrInvalidMessage
 	}
 
+	reentrant.bookkeeping.Lock()
+	defer reentrant.bookkeeping.Unlock()
+
 	if maxInFlight := reentrant.maxInFlight.Load(); maxInFlight > 0 {
 		for {
 			current := reentrant.inFlightCount.Load()
@@ -2161,18 +2164,22 @@ func (pid *PID) deregisterRequestState(state *requestState) {
 		return
 	}
 
+	reentrant.bookkeeping.Lock()
 	if _, ok := reentrant.requestStates.Get(state.id); !ok {
+		reentrant.bookkeeping.Unlock()
 		return
 	}
 
 	reentrant.requestStates.Delete(state.id)
 	reentrant.inFlightCount.Dec()
+	release := false
 	if state.mode == reentrancy.StashNonReentrant {
-		remaining := reentrant.blockingCount.Dec()
-		if remaining == 0 {
-			if err := pid.unstashAll(); err != nil {
-				pid.logger.Warn(err)
-			}
+		release = reentrant.blockingCount.Dec() == 0
+	}
+	reentrant.bookkeeping.Unlock()
+	if release {
+		if err := pid.unstashAll(); err != nil {
+			pid.logger.Warn(err)
 		}
 	}
 
@@ -2239,6 +2246,8 @@ func (pid *PID) cancelInFlightRequests(reason error) {
 		return
 	}
 
+	reentrant.bookkeeping.Lock()
+	defer reentrant.bookkeeping.Unlock()
 	keys := reentrant.requestStates.Keys()
 	for _, key := range keys {
 		state, ok := reentrant.requestStates.Get(key)
